@@ -556,7 +556,7 @@ Proof.
     { intros c'. eapply static_get; eauto. }
     assert (FE : forall g, (forall c', g st1 c' = g st c') -> filter (g st1) r = filter (g st) r).
     { intros g Hg. apply filter_ext. exact Hg. }
-    constructor; simpl; try congruence.
+    constructor; simpl; try solve [assumption | etransitivity; eassumption].
     + rewrite I6, H1, <- app_assoc. f_equal. rewrite (FE (recreated fail)) by (intros; apply ST).
       destruct (recreated fail st c); reflexivity.
     + rewrite I7, R1, <- app_assoc. f_equal. rewrite (FE (recreated fail)) by (intros; apply ST).
